@@ -7,6 +7,8 @@ import (
 	"os"
 	"path/filepath"
 	"runtime"
+	"runtime/debug"
+	"runtime/pprof"
 	"sort"
 	"strconv"
 	"strings"
@@ -23,9 +25,19 @@ func usage() {
 }
 
 func main() {
+	if pf := os.Getenv("GOSYMEX_CPUPROF"); pf != "" {
+		f, _ := os.Create(pf)
+		pprof.StartCPUProfile(f)
+		go func() {
+			time.Sleep(40 * time.Second)
+			pprof.StopCPUProfile()
+			f.Close()
+		}()
+	}
 	if len(os.Args) < 3 {
 		usage()
 	}
+	debug.SetGCPercent(400)
 	switch os.Args[1] {
 	case "check":
 		os.Exit(cmdCheck(os.Args[2], os.Args[3:]))
@@ -114,6 +126,8 @@ func cmdCheck(property string, args []string) int {
 	inconclusive := false
 	nviol := 0
 	var knownLines []string
+	expected := map[string][]string{}
+	reached := map[string]int64{}
 	replayDir := filepath.Join(verifDir, "replays", property)
 	os.RemoveAll(replayDir)
 	for _, H := range L.harnesses {
@@ -144,14 +158,13 @@ func cmdCheck(property string, args []string) int {
 				fmt.Printf("  INCONCLUSIVE %s: %s\n", H.Name, s)
 			}
 		}
-		// vacuity: every assertion statically reachable from the harness must have been reached
+		// vacuity: every assertion statically reachable from a harness must have been reached by some harness of this run
 		if abort == "" {
 			for _, id := range expectedAsserts(L.P, H) {
-				if st.assertReach[id] == 0 {
-					fmt.Printf("  VACUOUS %s: assertion %s was never reached\n", H.Name, id)
-					inconclusive = true
-					rep.Inconclusiv = append(rep.Inconclusiv, "assertion never reached: "+id)
-				}
+				expected[id] = append(expected[id], H.Name)
+			}
+			for id, n := range st.assertReach {
+				reached[id] += n
 			}
 			if st.paths == 0 || st.pathEnds["ok"] == 0 {
 				fmt.Printf("  VACUOUS %s: no path reached the end of the harness\n", H.Name)
@@ -196,6 +209,19 @@ func cmdCheck(property string, args []string) int {
 		}
 		reports = append(reports, rep)
 		total.merge(st)
+	}
+	if only == "" {
+		var ids []string
+		for id := range expected {
+			ids = append(ids, id)
+		}
+		sort.Strings(ids)
+		for _, id := range ids {
+			if reached[id] == 0 {
+				fmt.Printf("  VACUOUS: assertion %s (harness %s) was never reached\n", id, strings.Join(expected[id], ","))
+				inconclusive = true
+			}
+		}
 	}
 	sort.Strings(knownLines)
 	for i, l := range knownLines {
@@ -333,6 +359,18 @@ func writeEvidence(P *Program, property, tier string, seed int64, reports []harn
 			repoFuncs = append(repoFuncs, strings.ReplaceAll(f, repoPath+"/", ""))
 		} else {
 			depFuncs = append(depFuncs, f)
+		}
+	}
+	// executed basic blocks -> source lines
+	for b := range total.blocks {
+		for _, in := range b.Instrs {
+			if ps := in.Pos(); ps.IsValid() {
+				pp := P.prog.Fset.Position(ps)
+				if total.lines[pp.Filename] == nil {
+					total.lines[pp.Filename] = map[int]bool{}
+				}
+				total.lines[pp.Filename][pp.Line] = true
+			}
 		}
 	}
 	anchors := map[string]int{}
